@@ -96,16 +96,11 @@ func Parse(log string) []Block {
 
 const pdfcpuPrefix = "github.com/pdfcpu/pdfcpu/"
 
+// short turns "github.com/pdfcpu/pdfcpu/pkg/font.UserFontNames()" into "pkg/font.UserFontNames" and
+// maps compiler-made closures (….func1, ….gowrap2, ….deferwrap1, ….func1.2) to their enclosing function.
 func short(fn string) string {
-	if i := strings.Index(fn, "("); i >= 0 && strings.HasSuffix(fn, ")") && !strings.Contains(fn[i:], ").") {
-		// strip the trailing "()" argument list only
-		if strings.HasSuffix(fn, "()") {
-			fn = fn[:len(fn)-2]
-		}
-	}
 	fn = strings.TrimSuffix(fn, "()")
 	fn = strings.TrimPrefix(fn, pdfcpuPrefix)
-	// closures: keep the enclosing function (func1, gowrap1, deferwrap1 … are compiler-made)
 	for {
 		i := strings.LastIndex(fn, ".")
 		if i < 0 {
